@@ -1,7 +1,7 @@
 (** Correspondence check and property oracle for C15 (executable; no proofs).
     A case carries the implementation's observation; [check] compares it with
     the model and evaluates the property's own sentences on it. *)
-From Verif Require Import Lib.Base Lib.Json Lib.Str Generated.MessageGen Model.Message.
+From Verif Require Import Lib.Base Lib.Json Lib.JsonText Lib.Str Generated.MessageGen Model.Message.
 
 Inductive case :=
 | CRound (a : Attributes) (enc : result N wire) (dec : result N Attributes)
@@ -9,8 +9,10 @@ Inductive case :=
        (only meaningful when enc is Ok) *)
 | CDecode (text : str) (tree : option json) (dec : result N Attributes)
     (* message.Unmarshal(text); tree = the JSON tree of text (None: not JSON) *)
-| CLegacy (text : str) (dec : result N Attributes).
+| CLegacy (text : str) (dec : result N Attributes)
     (* message.UnmarshalLegacy(text) *)
+| CEnc (j : json) (s : str).
+    (* encoding/json printed a value whose tree is j as the text s *)
 
 (** ** The property, sentence by sentence, on the implementation's observation. *)
 
@@ -130,8 +132,13 @@ Definition check (c : case) : N :=
         if agree then 0 else 1
   | CDecode text tree dec =>
       if negb (oracle_decode tree dec) then 2
+      (* text level: the Gallina parser reads the text as encoding/json's tokenizer does *)
+      else if negb (option_eqb json_eqb (parse text) tree) then 1
       else if negb (modelable tree) then 0
       else if res_eqb (unmarshal text tree) dec then 0 else 1
+  | CEnc j s =>
+      (* the Gallina printer prints what Go's encoder prints (trees without fraction / exponent literals) *)
+      if negb (wf j) then 0 else if str_eqb (print j) s then 0 else 1
   | CLegacy text dec =>
       if negb (oracle_legacy dec) then 2
       else if res_eqb (unmarshal_legacy text) dec then 0 else 1
@@ -156,6 +163,7 @@ Definition classify (c : case) : N :=
           end
       | None => match unmarshal_legacy text with Val (Ok _) => 24 | _ => 25 end
       end
+  | CEnc j _ => if wf j then 60 else 61
   | CLegacy text _ =>
       match unmarshal_legacy text with
       | Val (Ok _) => 30 | Val (Err 4%N) => 31 | Val (Err _) => 32 | Panic => 33
